@@ -24,7 +24,7 @@ func register(id, level string, f checkFn) { checks[id] = f; levels[id] = level 
 
 func main() {
 	document.SetGlobalLevel(document.LogLevelSilent)
-	if c07SoloChild() || racePassMain() || seqx.ChildMain() || shard.ChildMain() {
+	if c07SoloChild() || c17ExpectChild() || racePassMain() || seqx.ChildMain() || shard.ChildMain() {
 		return
 	}
 	if len(os.Args) < 2 {
